@@ -47,6 +47,7 @@ type Contract struct {
 	Inert   bool // no heap effect
 	Safety  bool
 	Frame   bool // frame on: syntactic frame check is an obligation
+	Also          map[string][]string // property id -> labels of this block's obligations that additionally belong to that property
 	OnlyContracts []string // if set: only these callees' contracts are used, all others are treated as uncontracted
 	Opaque  bool
 	Params  []Binder
@@ -336,6 +337,17 @@ func applyClause(c *Contract, kw, label, text, file string, line int) error {
 		c.OnlyContracts = append(c.OnlyContracts, strings.Fields(strings.ReplaceAll(text, ",", " "))...)
 	case "frame":
 		c.Frame = strings.TrimSpace(text) != "off"
+	case "also":
+		// also C02: label1, label2   -- the obligations with these labels are also part of property C02's check
+		parts := strings.SplitN(text, ":", 2)
+		if len(parts) != 2 {
+			return fmt.Errorf("%s:%d: also <prop>: label, label", file, line)
+		}
+		if c.Also == nil {
+			c.Also = map[string][]string{}
+		}
+		p := strings.TrimSpace(parts[0])
+		c.Also[p] = append(c.Also[p], strings.Fields(strings.ReplaceAll(parts[1], ",", " "))...)
 	case "requires", "ensures":
 		cl, err := mkClause(label, text, file, line)
 		if err != nil {
